@@ -83,7 +83,9 @@ SetRefusal(I, p) ==
         ELSE SetRefusal(I[i].val.items, Drop(p, Len(I[i].ap)))
     ELSE "none"
 
-NewB(ap, v) == [k |-> "b", ap |-> ap, val |-> v, lead |-> <<>>, eol |-> "", blank |-> FALSE]
+\* blank: a blank line precedes the item (its leading comments included); lblank: a blank line separates its leading
+\* comments from the item itself
+NewB(ap, v) == [k |-> "b", ap |-> ap, val |-> v, lead |-> <<>>, eol |-> "", blank |-> FALSE, lblank |-> FALSE]
 RECURSIVE Nest(_, _, _)
 Nest(p, v, ml) == IF Len(p) = 1 THEN NewB(p, v)
                   ELSE NewB(<<p[1]>>, [k |-> "set", rec |-> FALSE, ml |-> ml, items |-> <<Nest(Tail(p), v, ml)>>, dang |-> <<>>])
@@ -119,7 +121,7 @@ RmIn(I, p) ==
 -----------------------------------------------------------------------------
 (* What a successful operation may do to an item sequence (C04 / C05).      *)
 
-SameButVal(x, y) == IsBind(x) /\ IsBind(y) /\ x.ap = y.ap /\ x.lead = y.lead /\ x.eol = y.eol /\ x.blank = y.blank
+SameButVal(x, y) == IsBind(x) /\ IsBind(y) /\ x.ap = y.ap /\ x.lead = y.lead /\ x.eol = y.eol /\ x.blank = y.blank /\ x.lblank = y.lblank
 \* an explicit parent that becomes (or stops being) empty may change between `{ }' and the multi-line form
 SameShell(v, w) == IsSet(v) /\ IsSet(w) /\ v.rec = w.rec /\ (v.ml = w.ml \/ v.items = <<>> \/ w.items = <<>>)
 
@@ -141,11 +143,11 @@ SetFrame(I, J, p) ==
         /\ SetFrame(I[i].val.items, J[i].val.items, Drop(p, Len(I[i].ap)))
     ELSE
         /\ Len(J) = Len(I) + 1 /\ SubSeq(J, 1, Len(I)) = I
-        /\ IsBind(J[Len(J)]) /\ J[Len(J)].eol = "" /\ ~J[Len(J)].blank   \* only the binding line is inserted
+        /\ IsBind(J[Len(J)]) /\ J[Len(J)].eol = "" /\ ~J[Len(J)].blank /\ ~J[Len(J)].lblank   \* only the binding line is inserted
                                                               \* (a comment that dangled before the closing brace now precedes it)
 
 \* neighbours of a removed item may lose / gain only their `blank' flag
-SameButBlank(x, y) == [x EXCEPT !.blank = FALSE] = [y EXCEPT !.blank = FALSE]
+SameButBlank(x, y) == [x EXCEPT !.blank = FALSE, !.lblank = FALSE] = [y EXCEPT !.blank = FALSE, !.lblank = FALSE]
 RECURSIVE RmFrame(_, _, _)
 RmFrame(I, J, p) ==
     IF I = J THEN TRUE
